@@ -50,7 +50,12 @@ def get_cards(block, skipcomments=False):
     n_cmnt = 0
 
     lprev = None  # previous card line
-    for n, l in enumerate(block.splitlines()):
+    # (lines end with a newline only: str.splitlines() would also cut at a
+    # form feed or at a unicode line separator inside a comment)
+    lines = block.split('\n')
+    if lines and lines[-1] == '':
+        lines.pop()
+    for n, l in enumerate(lines):
         # if comment, then  add to block of comments
         # if continuation, then append block of comment this line to current
         # card
